@@ -250,6 +250,9 @@ def explains(broken_item, found):
     if not fresh:
         return False
     b = broken_item.lower()
+    if b.startswith("translator unit") or "case file did not evaluate" in b or "disagree on which" in b \
+            or "was not found in the current environment" in b:
+        return True     # names no specific function: any new concrete violation explains it
     table = [(("lame",), ("lame_parameters",)),
              (("ic_units", "ic_zero", "denormalize", "(ic)", "inverse_consistency"), ("inverse_consistency",)),
              (("spacing_divisors", "gen_sd_"), ("spacing", "flow_derivatives")),
